@@ -89,7 +89,13 @@ def main():
         },
         "engines": [
             {"name": "tlc-trace", "path": "spec/TraceAbs.tla, spec/TraceSat.tla", "serves_properties": sorted(CHECKS),
-             "kind_free_text": "TLC validates ndjson traces recorded from the real allocator by harness/ against the abstract TLA+ model"},
+             "kind_free_text": "TLC validates ndjson traces recorded from the real allocator by harness/ against the abstract TLA+ model (Abs.tla) and the satellite specs"},
+            {"name": "tlc-fine", "path": "spec/LLFree.tla, spec/FineDefs.tla, bin/mkmc.py, bin/fineconf.py", "serves_properties": ["C01", "C03", "C04", "C05", "C13"],
+             "kind_free_text": "PlusCal model with one label per atomic access at the real geometry: exhaustive TLC over the scenario catalogue, step conformance of the real code's access sequences (TFgen_* trace specs), replay of model counterexamples on the real code"},
+            {"name": "tlc-gen", "path": "spec/Gen.tla, spec/Replay.tla", "serves_properties": ["C02", "C04", "C07", "C08", "C09", "C10", "C13", "C14", "C15", "C20"],
+             "kind_free_text": "spec -> implementation: TLC enumerates every operation sequence of a bounded symbolic alphabet; the harness executes them on the real code"},
+            {"name": "apalache-rowsearch", "path": "spec/sym/*.tla.in, bin/symbolic.py", "serves_properties": ["C23"],
+             "kind_free_text": "Apalache checks the transcription of each arm of first_zeros_aligned for all 2^64 rows (thorough tier)"},
         ],
         "checks": checks,
         "not_applicable": na,
